@@ -1,1 +1,553 @@
-"""(rules to be added)"""
+"""Engine NAME - generated names (DESIGN 5.6)."""
+from __future__ import annotations
+
+import ast
+import re
+from typing import Dict, List, Optional, Set, Tuple
+
+from .. import astutil as A
+from ..domains import skeleton, skeleton_text
+from ..model import AnalysisError, FunctionInfo
+from ..report import Ob, bad, ok, unresolved
+from . import rule
+from .common import block_classes, kw, method_calls
+from .store import _assign_parts, _core_functions
+
+GEN_METHODS = ("new_block_name", "new_region_name", "new_var_name")
+
+
+def _gen(ctx):
+    c = ctx.prog.cls("NameGenerator")
+    ms = {}
+    for n in GEN_METHODS:
+        m = c.find_method(n)
+        if m is None:
+            raise AnalysisError(f"NameGenerator.{n} not found")
+        ms[n] = m
+    return c, ms
+
+
+def _returned_names(ctx, m: FunctionInfo) -> List[Tuple[ast.AST, ast.AST]]:
+    """[(return stmt, expression that builds the returned string)] per reaching definition"""
+    cfg = ctx.cfg(m)
+    out = []
+    for r in A.walk_no_nested(m.node):
+        if isinstance(r, ast.Return) and r.value is not None:
+            if isinstance(r.value, ast.Name):
+                for d in cfg.reaching_defs(r, r.value.id):
+                    ap = _assign_parts(d.stmt) if d.stmt is not None else None
+                    out.append((r, ap[1] if ap else None, d))
+            else:
+                out.append((r, r.value, cfg.node_of(r)))
+    return out
+
+
+@rule("NAME-1", 6, "(flavour, kind, index) -> name is injective: each generated name is kind + a flavour separator + decimal index (+ fixed affixes)")
+def name1(ctx) -> List[Ob]:
+    out: List[Ob] = []
+    _c, ms = _gen(ctx)
+    shapes: Dict[str, Set[Tuple[str, str, str]]] = {}
+    for mname, m in ms.items():
+        kind_param = [p.arg for p in m.params if p.arg != "self"][0]
+        for r, expr, d in _returned_names(ctx, m):
+            key = f"{mname}: name built at a definition"
+            where = ctx.where(m, d.stmt if getattr(d, "stmt", None) is not None else r)
+            sk = skeleton(expr) if expr is not None else None
+            if sk is None:
+                out.append(unresolved("NAME-1", m.qualname, key, where, "the returned name is not a string expression the skeleton domain understands"))
+                continue
+            holes = [p for p in sk if isinstance(p, tuple)]
+            lits = [p for p in sk if isinstance(p, str)]
+            txt = skeleton_text(sk)
+            key = f"{mname}: {txt}"
+            kh = [i for i, p in enumerate(sk) if isinstance(p, tuple) and p[1] == kind_param]
+            ih = [i for i, p in enumerate(sk) if isinstance(p, tuple) and p[1] != kind_param]
+            if len(kh) != 1 or len(ih) != 1 or len(holes) != 2:
+                out.append(bad("NAME-1", m.qualname, key, where, f"name skeleton '{txt}' does not contain exactly the kind and one index: different (kind, index) pairs can give the same name"))
+                continue
+            ki, ii = kh[0], ih[0]
+            if not (ki < ii and ii == ki + 2 and isinstance(sk[ki + 1], str)):
+                out.append(bad("NAME-1", m.qualname, key, where, f"name skeleton '{txt}': kind and index are not separated by a literal, parsing is ambiguous"))
+                continue
+            sep = sk[ki + 1]
+            if not re.search(r"\D", sep):
+                out.append(bad("NAME-1", m.qualname, key, where, f"separator '{sep}' consists of digits only: 'kind1'+'2' and 'kind'+'12' collide"))
+                continue
+            prefix = "".join(p for p in sk[:ki] if isinstance(p, str))
+            suffix = "".join(p for p in sk[ii + 1:] if isinstance(p, str))
+            if re.search(r"^\d", suffix):
+                out.append(bad("NAME-1", m.qualname, key, where, f"suffix '{suffix}' starts with a digit: the index cannot be parsed back"))
+                continue
+            # the index hole must be the counter value of this path (checked by NAME-2: same definition)
+            shapes.setdefault(mname, set()).add((prefix, sep, suffix))
+            out.append(ok("NAME-1", m.qualname, key, where, f"'{prefix}' + kind + '{sep}' + decimal index + '{suffix}': parses uniquely at the last separator"))
+    # one shape per method, and the flavours are mutually distinguishable
+    for mname, sh in sorted(shapes.items()):
+        key = f"{mname}: one shape on every path"
+        if len(sh) == 1:
+            out.append(ok("NAME-1", ms[mname].qualname, key, ctx.where(ms[mname]), f"shape {sorted(sh)[0]}", nontrivial=False))
+        else:
+            out.append(bad("NAME-1", ms[mname].qualname, key, ctx.where(ms[mname]), f"the paths of {mname} build names of different shapes {sorted(sh)}: the first name of a kind can collide with a later one"))
+    names = sorted(shapes)
+    for i, a in enumerate(names):
+        for b in names[i + 1:]:
+            key = f"{a} vs {b}"
+            sa, sb = sorted(shapes[a])[0], sorted(shapes[b])[0]
+            # names end with sep+digits+suffix: distinguishable when suffixes differ in their final
+            # character class, or suffix equal and one separator is not a suffix of the other
+            if sa[2] != sb[2]:
+                distinct = not (sa[2].endswith(sb[2]) and sb[2] == "" and re.search(r"\d$", sa[2])) and not (sb[2].endswith(sa[2]) and sa[2] == "" and re.search(r"\d$", sb[2]))
+            else:
+                distinct = not (sa[1].endswith(sb[1]) or sb[1].endswith(sa[1]))
+            if distinct:
+                out.append(ok("NAME-1", "NameGenerator", key, ctx.where(ms[a]), f"{sa} and {sb} can never produce the same string"))
+            else:
+                out.append(bad("NAME-1", "NameGenerator", key, ctx.where(ms[a]), f"names of {a} {sa} and {b} {sb} can coincide although both draw from the shared per-kind counter only when the kinds are equal"))
+    # kinds vocabulary (evidence)
+    vocab: Dict[str, Set[str]] = {}
+    for fn in ctx.prog.functions:
+        for mname in GEN_METHODS:
+            for c in method_calls(fn.node, mname):
+                if c.args:
+                    a = c.args[0]
+                    try:
+                        v = ctx.prog.const_value(fn.module, a)
+                        vocab.setdefault(mname, set()).add(str(v))
+                    except AnalysisError:
+                        vocab.setdefault(mname, set()).add(f"<{A.unparse(a)}>")
+    ctx.stats["NAME-1.kinds"] = {k: sorted(v) for k, v in vocab.items()}
+    return out
+
+
+@rule("NAME-2", 6, "every path through a generator method reads the counter of its kind from the one shared mapping, uses it as index and stores index + 1 back")
+def name2(ctx) -> List[Ob]:
+    out: List[Ob] = []
+    cls, ms = _gen(ctx)
+    fld = cls.field("kinds")
+    for mname, m in ms.items():
+        cfg = ctx.cfg(m)
+        kind_param = [p.arg for p in m.params if p.arg != "self"][0]
+        where = ctx.where(m)
+
+        def is_store(z) -> bool:
+            s = z.stmt
+            if isinstance(s, ast.Assign) and len(s.targets) == 1 and isinstance(s.targets[0], ast.Subscript):
+                t = s.targets[0]
+                return A.unparse(t.value) == "self.kinds" and A.unparse(t.slice) == kind_param
+            if isinstance(s, ast.AugAssign) and isinstance(s.target, ast.Subscript):
+                return A.unparse(s.target.value) == "self.kinds" and A.unparse(s.target.slice) == kind_param
+            return False
+
+        key = f"{mname}: counter stored on every path"
+        if cfg.exit in cfg.reachable(cfg.entry, avoid=is_store):
+            out.append(bad("NAME-2", m.qualname, key, where, f"there is a path through {mname} that returns a name without advancing self.kinds[{kind_param}]: the next request of that kind returns the same name"))
+        else:
+            out.append(ok("NAME-2", m.qualname, key, where, "self.kinds[kind] written on every path to the return"))
+        # each store: value is index + 1 where index is the value used in the name on that path
+        for z in cfg.nodes:
+            if not is_store(z):
+                continue
+            s = z.stmt
+            skey = f"{mname}: " + A.alpha_key(s, keep=("self",))
+            swhere = ctx.where(m, s)
+            if isinstance(s, ast.AugAssign):
+                okv = isinstance(s.op, ast.Add) and isinstance(s.value, ast.Constant) and s.value.value == 1
+                idx_name = None
+            else:
+                v = s.value
+                okv = isinstance(v, ast.BinOp) and isinstance(v.op, ast.Add) and isinstance(v.right, ast.Constant) and v.right.value == 1 and isinstance(v.left, ast.Name)
+                idx_name = v.left.id if okv else None
+            if not okv:
+                out.append(bad("NAME-2", m.qualname, skey, swhere, f"the counter is set to {A.unparse(s.value)}, not to index + 1: names repeat or the counter does not advance"))
+                continue
+            # index provenance: self.kinds[kind] or the constant 0 under `kind not in self.kinds`
+            problems = []
+            if idx_name is not None:
+                for d in cfg.reaching_defs(s, idx_name):
+                    ap = _assign_parts(d.stmt) if d.stmt is not None else None
+                    if ap is None:
+                        problems.append("index is not defined on this path")
+                        continue
+                    dv = ap[1]
+                    if isinstance(dv, ast.Subscript) and A.unparse(dv.value) == "self.kinds" and A.unparse(dv.slice) == kind_param:
+                        continue
+                    if isinstance(dv, ast.Call) and A.unparse(dv.func) == "self.kinds.get" and dv.args and A.unparse(dv.args[0]) == kind_param:
+                        continue
+                    if isinstance(dv, ast.Constant) and dv.value == 0:
+                        # must be on the `kind not in self.kinds` side
+                        from .ctrl import _guard_conditions
+
+                        gs = _guard_conditions(m.node, d.stmt)
+                        side = [(t, pol) for t, pol in gs if "self.kinds" in t and kind_param in t]
+                        if side and ((" not in " in side[0][0]) == side[0][1]):
+                            continue
+                        problems.append(f"index starts again at 0 (line {A.lineno(d.stmt)}) although the kind may already have a counter")
+                        continue
+                    problems.append(f"index comes from {A.unparse(dv)[:40]}, not from the shared counter")
+                # the same index definition is used in the returned name on this path
+                for r, expr, dn in _returned_names(ctx, m):
+                    if expr is None or idx_name not in A.names_in(expr):
+                        continue
+                    nd = dn if hasattr(dn, "stmt") else None
+                    if nd is not None and (z in cfg.reachable(nd) or nd in cfg.reachable(z)):
+                        a = {id(x) for x in cfg.reaching_defs(nd.stmt, idx_name)}
+                        b = {id(x) for x in cfg.reaching_defs(s, idx_name)}
+                        if a != b:
+                            problems.append("the index in the name and the index that is incremented are different definitions")
+            if problems:
+                out.append(bad("NAME-2", m.qualname, skey, swhere, "; ".join(sorted(set(problems)))))
+            else:
+                out.append(ok("NAME-2", m.qualname, skey, swhere, "stores index + 1 where index is this path's counter value (or 0 for a new kind)"))
+    # the mapping is the generator's own field, created once per generator
+    key = "shared counter mapping"
+    if fld is None:
+        out.append(bad("NAME-2", cls.name, key, f"{cls.module.relpath}:{A.lineno(cls.node)}", "NameGenerator has no 'kinds' field: counters are not shared between the three methods"))
+    else:
+        dflt = A.unparse(fld.default) if fld.default is not None else ""
+        if "default_factory" in dflt and "dict" in dflt:
+            out.append(ok("NAME-2", cls.name, key, f"{cls.module.relpath}:{A.lineno(cls.node)}", "one dict per generator instance, shared by block, region and variable names", nontrivial=False))
+        else:
+            out.append(bad("NAME-2", cls.name, key, f"{cls.module.relpath}:{A.lineno(cls.node)}", f"'kinds' default is {dflt or 'missing'}: not a fresh dict per generator"))
+    return out
+
+
+# ------------------------------------------------------------------ NAME-3
+
+
+def _fresh(ctx, fn: FunctionInfo, e: ast.AST, use: ast.AST, depth: int = 0, trail: Optional[List[str]] = None) -> Tuple[str, List[str]]:
+    """('fresh' | 'existing' | 'literal' | 'unknown', derivation)"""
+    trail = trail if trail is not None else []
+    cfg = ctx.cfg(fn)
+    if isinstance(e, ast.Call) and isinstance(e.func, ast.Attribute) and e.func.attr in GEN_METHODS:
+        return "fresh", trail + [f"{fn.qualname}: {A.unparse(e)[:60]}"]
+    if isinstance(e, ast.Constant):
+        return "literal", trail + [f"{fn.qualname}: literal {e.value!r}"]
+    if isinstance(e, ast.JoinedStr) or isinstance(e, ast.BinOp):
+        return "literal", trail + [f"{fn.qualname}: built string {A.unparse(e)[:40]}"]
+    if isinstance(e, ast.Name) and depth < 5:
+        params = [p.arg for p in fn.params]
+        verdicts = []
+        for d in cfg.reaching_defs(use, e.id):
+            if d.stmt is None:
+                if e.id in params:
+                    sites = ctx.cg.call_sites_of(fn)
+                    lib = [s for s in sites]
+                    if not lib:
+                        verdicts.append(("fresh", trail + [f"{fn.qualname}: parameter {e.id} (public entry point, no library caller)"]))
+                        continue
+                    idx = params.index(e.id) - (1 if fn.cls is not None and not fn.is_static else 0)
+                    for s in lib:
+                        arg = kw(s.node, e.id, idx)
+                        if arg is None:
+                            verdicts.append(("unknown", trail + [f"{s.caller.qualname}: argument for {e.id} not found"]))
+                        else:
+                            verdicts.append(_fresh(ctx, s.caller, arg, s.node, depth + 1, trail + [f"{fn.qualname}: parameter {e.id} <- {s.caller.qualname}"]))
+                else:
+                    # undefined on a path that the use cannot be on: the use sits under the same
+                    # condition (same test, same polarity, test variable not re-bound) as a definition
+                    from .ctrl import _guard_conditions
+
+                    ug = set(_guard_conditions(fn.node, use))
+                    real = [x for x in cfg.reaching_defs(use, e.id) if x.stmt is not None]
+                    if real and all(set(_guard_conditions(fn.node, x.stmt)) and set(_guard_conditions(fn.node, x.stmt)) <= ug for x in real):
+                        continue
+                    verdicts.append(("unknown", trail + [f"{fn.qualname}: {e.id} undefined on some path"]))
+                continue
+            ap = _assign_parts(d.stmt)
+            if ap is not None:
+                verdicts.append(_fresh(ctx, fn, ap[1], d.stmt, depth + 1, trail))
+            elif d.kind == "for":
+                verdicts.append(("existing", trail + [f"{fn.qualname}: {e.id} iterates {A.unparse(d.stmt.iter)[:40]}"]))
+            else:
+                verdicts.append(("unknown", trail + [f"{fn.qualname}: {e.id} bound by {type(d.stmt).__name__}"]))
+        kinds = {v for v, _ in verdicts}
+        if kinds == {"fresh"}:
+            return "fresh", verdicts[0][1]
+        for k in ("literal", "existing", "unknown"):
+            for v, t in verdicts:
+                if v == k:
+                    return v, t
+    return "unknown", trail + [f"{fn.qualname}: {A.unparse(e)[:40]}"]
+
+
+@rule("NAME-3", 8, "the name of every block the restructuring code constructs or stores under a new key comes from the graph's name generator")
+def name3(ctx) -> List[Ob]:
+    out: List[Ob] = []
+    prog = ctx.prog
+    bnames = {c.name for c in block_classes(prog)}
+    for fn in _core_functions(ctx):
+        for c in A.walk_no_nested(fn.node):
+            if not isinstance(c, ast.Call):
+                continue
+            t = ctx.type_of(fn, c.func)
+            from ..types import members
+
+            if not any(m[0] == "type" and m[1] in bnames for m in members(t)):
+                continue
+            nm = kw(c, "name", 0)
+            if nm is None:
+                continue
+            key = f"{A.alpha_key(c.func)}(name={A.alpha_key(nm)})"
+            where = ctx.where(fn, c)
+            v, deriv = _fresh(ctx, fn, nm, c)
+            if v == "fresh":
+                out.append(ok("NAME-3", fn.qualname, key, where, "name drawn from the name generator", deriv))
+            elif v == "unknown":
+                out.append(unresolved("NAME-3", fn.qualname, key, where, "cannot trace the name to its origin", deriv))
+            else:
+                out.append(bad("NAME-3", fn.qualname, key, where, f"a block is constructed under a name that is not generated ({v}): it can overwrite an existing block of that name", deriv))
+    return out
+
+
+# ------------------------------------------------------------------ NAME-4
+
+
+@rule("NAME-4", 3, "a graph built around existing blocks shares their name generator, or gets one advanced past the names present, or holds only names outside the generator's namespace")
+def name4(ctx) -> List[Ob]:
+    out: List[Ob] = []
+    prog = ctx.prog
+    for fn in prog.functions:
+        for c in A.walk_no_nested(fn.node):
+            if not (isinstance(c, ast.Call) and (A.dotted(c.func) or "").split(".")[-1] == "SCFG"):
+                continue
+            graph = kw(c, "graph", 0)
+            ng = kw(c, "name_gen", 1)
+            key = A.alpha_key(c)
+            where = ctx.where(fn, c)
+            if graph is None:
+                out.append(ok("NAME-4", fn.qualname, key, where, "empty graph: nothing to collide with", nontrivial=False))
+                continue
+            if ng is not None:
+                verdict, why = _gen_provenance(ctx, fn, ng, c)
+            else:
+                verdict, why = _names_outside_namespace(ctx, fn, graph, c)
+            if verdict == "ok":
+                out.append(ok("NAME-4", fn.qualname, key, where, why))
+            elif verdict == "unknown":
+                out.append(unresolved("NAME-4", fn.qualname, key, where, why))
+            else:
+                out.append(bad("NAME-4", fn.qualname, key, where, why))
+    return out
+
+
+def _gen_provenance(ctx, fn: FunctionInfo, ng: ast.AST, use: ast.AST, depth: int = 0) -> Tuple[str, str]:
+    cfg = ctx.cfg(fn)
+    if isinstance(ng, ast.Attribute) and ng.attr == "name_gen":
+        return "ok", f"shares the generator of the graph the blocks come from ({A.unparse(ng)})"
+    if isinstance(ng, ast.Name) and depth < 4:
+        params = [p.arg for p in fn.params]
+        res = []
+        for d in cfg.reaching_defs(use, ng.id):
+            if d.stmt is None:
+                if ng.id in params:
+                    idx = params.index(ng.id) - (1 if fn.cls is not None and not fn.is_static else 0)
+                    sites = [s for s in ctx.cg.call_sites_of(fn) if s.caller != fn]
+                    if not sites:
+                        res.append(("unknown", f"generator parameter {ng.id} of {fn.qualname} has no library caller"))
+                    for s in sites:
+                        arg = kw(s.node, ng.id, idx)
+                        res.append(_gen_provenance(ctx, s.caller, arg, s.node, depth + 1) if arg is not None else ("unknown", "argument not found"))
+                continue
+            ap = _assign_parts(d.stmt)
+            if ap is None:
+                res.append(("unknown", "generator bound by an unknown construct"))
+                continue
+            v = ap[1]
+            if isinstance(v, ast.Call) and (A.dotted(v.func) or "").split(".")[-1] == "NameGenerator":
+                # fresh generator: it must be seeded from the names present before it is used
+                un = cfg.node_of(use)
+
+                def seeds(z) -> bool:
+                    if z.kind != "for":
+                        return False
+                    for s in A.walk_no_nested(ast.Module(z.stmt.body, [])):
+                        tg = None
+                        if isinstance(s, ast.Assign) and isinstance(s.targets[0], ast.Subscript):
+                            tg = s.targets[0]
+                        if tg is not None and A.unparse(tg.value) == f"{ng.id}.kinds":
+                            val = A.unparse(s.value)
+                            if "max(" in val and "+ 1" in val:
+                                return True
+                    return False
+
+                seed_nodes = [z for z in cfg.nodes if seeds(z)]
+                if seed_nodes and un not in cfg.reachable(d, avoid=lambda z: z in seed_nodes):
+                    # the seeding loop must range over names taken from the input
+                    src = A.unparse(seed_nodes[0].stmt.iter)
+                    res.append(("ok", f"fresh generator whose counters are advanced past the names found in the input (loop over {src}) before use"))
+                else:
+                    res.append(("bad", f"a fresh NameGenerator (line {A.lineno(v)}) is attached to a graph that already contains blocks: the first generated names repeat names present in the graph"))
+            elif isinstance(v, ast.Attribute) and v.attr == "name_gen":
+                res.append(("ok", f"shares {A.unparse(v)}"))
+            else:
+                res.append(("unknown", f"generator comes from {A.unparse(v)[:40]}"))
+        for k in ("bad", "unknown"):
+            for r in res:
+                if r[0] == k:
+                    return r
+        if res:
+            return res[0]
+    return "unknown", f"cannot trace the generator {A.unparse(ng)[:40]}"
+
+
+def _names_outside_namespace(ctx, fn: FunctionInfo, graph: ast.AST, use: ast.AST) -> Tuple[str, str]:
+    """no name_gen= given (a fresh default generator): fine when the block names are decimal strings"""
+    prog = ctx.prog
+    # graph=self.convert_blocks(): names are the WritableASTBlock names
+    txt = A.unparse(graph)
+    wab = prog.classes.get("WritableASTBlock")
+    if wab is None:
+        return "unknown", "WritableASTBlock not found"
+    if "convert_blocks" in txt:
+        bad_sites = []
+        n = 0
+        for f in prog.functions:
+            for c in A.walk_no_nested(f.node):
+                if isinstance(c, ast.Call) and (A.dotted(c.func) or "").split(".")[-1] == "WritableASTBlock":
+                    n += 1
+                    nm = kw(c, "name", 0)
+                    okn = isinstance(nm, ast.Call) and isinstance(nm.func, ast.Name) and nm.func.id == "str" and nm.args and ctx.type_of(f, nm.args[0]) == ("int",)
+                    if not okn:
+                        bad_sites.append(f"{f.qualname}:{A.lineno(c)} name={A.unparse(nm) if nm is not None else '?'}")
+        if n and not bad_sites:
+            return "ok", f"default generator, but every front-end block is named str(<int>) ({n} construction site(s)): decimal strings are outside the generator's namespace"
+        return "bad", f"default (fresh) generator and front-end block names are not provably decimal: {bad_sites[:2]}"
+    return "bad", f"SCFG built around existing blocks ({txt[:40]}) without name_gen=: a fresh generator restarts at index 0"
+
+
+# ------------------------------------------------------------------ NAME-5
+
+RESERVED = re.compile(r"^__scfg_.*__$")
+TEMPLATE_BUILTINS = {"iter", "next"}
+
+
+def _string_skeleton(ctx, fn: FunctionInfo, e: ast.AST, use: ast.AST, depth: int = 0):
+    """skeleton list of a string-valued expression, following locals; holes are
+    ('hole', text) or ('user', text) for text produced by ast.unparse of user code"""
+    cfg = ctx.cfg(fn)
+    if isinstance(e, ast.Call) and (A.dotted(e.func) or "") in ("textwrap.dedent", "dedent") and e.args:
+        return _string_skeleton(ctx, fn, e.args[0], use, depth + 1)
+    if isinstance(e, ast.Call) and (A.dotted(e.func) or "") == "ast.unparse":
+        return [("user", A.unparse(e))]
+    sk = skeleton(e)
+    if sk is not None:
+        out = []
+        for p in sk:
+            if isinstance(p, tuple):
+                try:
+                    he = ast.parse(p[1], mode="eval").body
+                except SyntaxError:
+                    out.append(p)
+                    continue
+                if isinstance(he, ast.Name) and depth < 4:
+                    # resolve the hole through the local's definition (in the enclosing statement's scope)
+                    sub = None
+                    defs = [d for d in cfg.reaching_defs(use, he.id) if d.stmt is not None]
+                    if len(defs) == 1:
+                        ap = _assign_parts(defs[0].stmt)
+                        if ap is not None:
+                            sub = _string_skeleton(ctx, fn, ap[1], defs[0].stmt, depth + 1)
+                    if sub is not None and not (len(sub) == 1 and isinstance(sub[0], tuple) and sub[0][0] == "hole" and sub[0][1] == he.id):
+                        out.extend(sub)
+                        continue
+                out.append(p)
+            else:
+                out.append(p)
+        return out
+    if isinstance(e, ast.Name) and depth < 4:
+        defs = [d for d in cfg.reaching_defs(use, e.id) if d.stmt is not None]
+        if len(defs) == 1:
+            ap = _assign_parts(defs[0].stmt)
+            if ap is not None:
+                return _string_skeleton(ctx, fn, ap[1], defs[0].stmt, depth + 1)
+        return [("hole", e.id)]
+    return None
+
+
+def _skeleton_reserved(sk) -> bool:
+    """every string the skeleton can produce matches ^__scfg_.*__$"""
+    if not sk or not isinstance(sk[0], str) or not isinstance(sk[-1], str):
+        return False
+    return sk[0].startswith("__scfg_") and sk[-1].endswith("__") and (len(sk) > 1 or len(sk[0]) >= len("__scfg___"))
+
+
+@rule("NAME-5", 8, "every identifier the transformers introduce lies in the reserved __scfg_..__ namespace (builtins iter/next of the for template excepted)")
+def name5(ctx) -> List[Ob]:
+    out: List[Ob] = []
+    prog = ctx.prog
+    mod = prog.module("ast_transforms")
+    # the generator's variable skeleton is reserved (block.variable / variable_assignment keys come from it)
+    _c, ms = _gen(ctx)
+    vm = ms["new_var_name"]
+    gen_ok = True
+    for r, expr, d in _returned_names(ctx, vm):
+        sk = skeleton(expr) if expr is not None else None
+        key = "control variable skeleton " + (skeleton_text(sk) if sk else "?")
+        if sk is not None and _skeleton_reserved(sk):
+            out.append(ok("NAME-5", vm.qualname, key, ctx.where(vm), "control variables are __scfg_<kind>_var_<n>__"))
+        else:
+            gen_ok = False
+            out.append(bad("NAME-5", vm.qualname, key, ctx.where(vm), f"control variable names ({skeleton_text(sk) if sk else '?'}) are outside the reserved __scfg_*__ namespace: they can capture a variable of the user's function"))
+    for fn in prog.functions:
+        if fn.module is not mod:
+            continue
+        for c in A.walk_no_nested(fn.node):
+            if not isinstance(c, ast.Call):
+                continue
+            d = A.dotted(c.func) or ""
+            if d == "ast.Name":
+                idarg = kw(c, "id", 0)
+                if idarg is None:
+                    continue
+                key = "ast.Name(" + A.alpha_key(idarg) + ")"
+                where = ctx.where(fn, c)
+                # graph-provided control variables
+                if isinstance(idarg, ast.Attribute) and idarg.attr == "variable":
+                    out.append(ok("NAME-5", fn.qualname, key, where, "a block's control variable (generator namespace)", nontrivial=False) if gen_ok else bad("NAME-5", fn.qualname, key, where, "uses a control variable whose namespace is not reserved"))
+                    continue
+                if isinstance(idarg, ast.Name):
+                    t = ctx.type_of(fn, idarg)
+                    comp = next((x for x in A.ancestors(c) if isinstance(x, (ast.ListComp, ast.GeneratorExp))), None)
+                    if comp is not None and any("variable_assignment" in A.unparse(g.iter) for g in comp.generators):
+                        out.append(ok("NAME-5", fn.qualname, key, where, "key of a block's variable_assignment (generator namespace)", nontrivial=False) if gen_ok else bad("NAME-5", fn.qualname, key, where, "uses a control variable whose namespace is not reserved"))
+                        continue
+                sk = _string_skeleton(ctx, fn, idarg, c)
+                if sk is None:
+                    out.append(unresolved("NAME-5", fn.qualname, key, where, f"cannot determine the identifier {A.unparse(idarg)[:40]}"))
+                elif _skeleton_reserved(sk):
+                    out.append(ok("NAME-5", fn.qualname, key, where, f"identifier {skeleton_text(sk)} is reserved"))
+                else:
+                    out.append(bad("NAME-5", fn.qualname, key, where, f"the generated code introduces the identifier '{skeleton_text(sk)}', which is not in the reserved __scfg_*__ namespace"))
+            elif d == "ast.parse" and c.args:
+                arg = c.args[0]
+                sk = _string_skeleton(ctx, fn, arg, c)
+                key = "template " + A.alpha_key(arg)
+                where = ctx.where(fn, c)
+                if sk is None or all(isinstance(p, tuple) for p in sk):
+                    if isinstance(arg, ast.Name) and fn.name == "unparse_code" or "code" in A.unparse(arg):
+                        continue  # the user's own source
+                    out.append(unresolved("NAME-5", fn.qualname, key, where, "template text not understood"))
+                    continue
+                # instantiate: user holes -> USERn, other holes -> 0
+                text = ""
+                for p in sk:
+                    if isinstance(p, str):
+                        text += p
+                    elif p[0] == "user":
+                        text += "USERHOLE"
+                    else:
+                        text += "0"
+                import textwrap
+
+                try:
+                    tree = ast.parse(textwrap.dedent(text))
+                except SyntaxError:
+                    out.append(unresolved("NAME-5", fn.qualname, key, where, "instantiated template does not parse"))
+                    continue
+                idents = sorted({n.id for n in ast.walk(tree) if isinstance(n, ast.Name)})
+                offenders = [i for i in idents if i != "USERHOLE" and not RESERVED.match(i) and i not in TEMPLATE_BUILTINS]
+                if offenders:
+                    out.append(bad("NAME-5", fn.qualname, key, where, f"the source template introduces identifier(s) {offenders} outside the reserved namespace"))
+                else:
+                    out.append(ok("NAME-5", fn.qualname, key, where, f"template identifiers {idents}: user code, reserved names, and the builtins {sorted(TEMPLATE_BUILTINS & set(idents))}"))
+    return out
